@@ -332,6 +332,9 @@ func vC16RunJWS(k *vKit, gen vSx, r *vRng, alg string, size, ser int) {
 		fail("roundtrip", fmt.Sprintf("Verify returned %x, %v %s; payload %x", out, err, pan, payload))
 		return
 	}
+	if ser != 0 {
+		vC16JSONVariants(k, r, "jws", text)
+	}
 	if ser == 2 {
 		if out, err, pan := verify(text, vk2); pan != "" || err != nil || !bytes.Equal(out, payload) {
 			fail("roundtrip", fmt.Sprintf("second signer: Verify returned %x, %v %s", out, err, pan))
@@ -586,6 +589,9 @@ func vC16RunJWE(k *vKit, gen vSx, r *vRng, alg, enc string, zip, size, ser int) 
 	if pan != "" || err != nil || !bytes.Equal(out, payload) || !bytes.Equal(gotAad, aad) {
 		fail("roundtrip", fmt.Sprintf("Decrypt returned %d bytes, aad %x, err=%v panic=%q; want %d bytes, aad %x", len(out), gotAad, err, pan, len(payload), aad))
 		return
+	}
+	if ser != 0 && size <= 100 {
+		vC16JSONVariants(k, r, "jwe", text)
 	}
 	if ser == 2 {
 		if out, _, err, pan := decrypt(text, dk2); pan != "" || err != nil || !bytes.Equal(out, payload) {
